@@ -822,7 +822,7 @@ class SymArr:
     def mean(self, axis=None):
         from .prelude_np import NP
 
-        if axis is None and ctx().concrete:
+        if axis is None and (ctx().concrete or ctx().crossexec):
             vals = [self.at(*ix) for ix in itertools.product(*[range(int(n)) for n in self.shape])]
             return sum(vals) / len(vals)
         if axis is None and self.ndim == 1 and is_sym(self.shape[0]):
@@ -833,7 +833,7 @@ class SymArr:
         return NP.mean(self, axis=axis)
 
     def std(self, axis=None):
-        if axis is None and ctx().concrete:
+        if axis is None and (ctx().concrete or ctx().crossexec):
             vals = [float(self.at(*ix)) for ix in itertools.product(*[range(int(n)) for n in self.shape])]
             m = sum(vals) / len(vals)
             return (sum((v - m) ** 2 for v in vals) / len(vals)) ** 0.5
